@@ -1,4 +1,5 @@
 import MgpuModel.C09_Disp
+import MgpuModel.C09_Part
 /-! # C09 — line-protocol handler
 
 Three kinds of case lines (one scenario per line, ops separated by `;`):
@@ -8,6 +9,8 @@ Three kinds of case lines (one scenario per line, ops separated by `;`):
   `FreeResourcesForWG` sequences on one registered CU (`p` prints the masks);
 * `c09 cp alg=rr|greedy nd=<n> klo= ko= sklo= thr= cus=<cu>|<cu>… ; launch gx wx s v l ; tick ;
   done k ; doneb k,k,… ; room cu|drv n ; probe` — the command processor with harness CUs.
+* `c09 part gx=<n> wx=<n> ncu=<n> fails=<0/1…>` — the partition placement algorithm alone
+  (`MgpuModel/C09_Part.lean`).
 A fault (Go panic) ends the scenario: the op prints `fault:<kind>` and later ops print `X`. -/
 namespace C09
 open Util
@@ -203,6 +206,7 @@ def handle (line : String) : String :=
     | _ :: "mask" :: _ => handleMask (words first) ops
     | _ :: "res" :: _ => handleRes (words first) ops
     | _ :: "cp" :: _ => handleCP (words first) ops
+    | _ :: "part" :: _ => handlePart (words first)
     | [_, "const"] =>
       -- what the shipped CU reports to the pool, and the register files `cu.MakeBuilder` allocates
       -- (`byte_offsets_disjoint'` is about exactly these sizes)
